@@ -175,7 +175,7 @@ func modeParallel(root *rng.R, n int) {
 	}
 	for i, c := range cases {
 		rec := &Rec{ID: i, Mode: "parallel", Case: "PARALLEL " + desc.Hex(c.want), Impl: fmt.Sprintf("rounds=%d", c.rounds),
-			Oracle: map[string]string{"C01": "ok", "C17": "ok", "C02": "ok", "C03": "ok", "C11": "ok"}, Skip: true, Size: len(c.want)}
+			Oracle: map[string]string{"C01": "ok", "C17": "ok", "C02": "ok", "C18": "ok", "C03": "ok", "C11": "ok"}, Skip: true, Size: len(c.want)}
 		const ctx = " (the same call on the same message, made alone, does not: 8 goroutines were using the codec on messages of their own)"
 		if c.serial != "" {
 			v1, v17 := oracleC01(c.m, c.serOut), oracleC17(c.m, c.serOut)
@@ -192,6 +192,9 @@ func modeParallel(root *rng.R, n int) {
 		}
 		if c.parse != "" {
 			rec.Oracle["C02"] = "fail: " + c.parse + ctx
+			// a field found under another field's tag, or not found although it is there: the lookup
+			// matched something that is not that field's boundary
+			rec.Oracle["C18"] = rec.Oracle["C02"]
 		}
 		if c.damage != "" {
 			rec.Oracle["C03"] = "fail: a variant with one changed byte was accepted: " + desc.Hex(c.dmg) + ctx
